@@ -22,7 +22,10 @@
      5. Notify      notify_post_{publishes,unparks,other_clocks,monotone},
                     notify_wait2_{acquires,fails_iff,other_clocks}, notify_handover,
                     join_schedules_wait, exit_schedules_post
-     6. Channel     send_post_{publishes,last_view,clocks},
+     6. Channel     send_post_{publishes,last_view,clocks} (publishes / last_view:
+                    receiver alive), send_post_{keeps_rx,disconnected,
+                    disconnected_sender_sync} (receiver gone: count and queued
+                    views untouched),
                     recv_post_{acquires,empty_fails,other_clocks}, channel_handover
      7. Arc         arc_dec_post_{publishes,released_fails,other_clocks},
                     arc_drop_handover, arc_get_mut_post_acquires,
@@ -253,6 +256,26 @@ Proof.
   - reflexivity.
   - simpl. rewrite IHt. reflexivity.
 Qed.
+
+Lemma mapi_length : forall (A B : Type) (f : nat -> A -> B) (l : list A),
+  length (mapi f l) = length l.
+Proof. intros A B f l. unfold mapi. apply mapi_from_length. Qed.
+
+(* nth through mapi for a projection that the (endo)map preserves *)
+Lemma nth_mapi_from_proj : forall (A B : Type) (g : A -> B) (f : nat -> A -> A) (l : list A) d,
+  (forall i x, g (f i x) = g x) ->
+  forall k j, g (nth j (mapi_from k f l) d) = g (nth j l d).
+Proof.
+  intros A B g f l d Hg. induction l as [|h t IHt]; intros k j.
+  - reflexivity.
+  - destruct j as [|j]; cbn [mapi_from nth].
+    + apply Hg.
+    + apply IHt.
+Qed.
+
+Lemma nth_mapi_proj : forall (A B : Type) (g : A -> B) (f : nat -> A -> A) (l : list A) d,
+  (forall i x, g (f i x) = g x) -> forall j, g (nth j (mapi f l) d) = g (nth j l d).
+Proof. intros A B g f l d Hg j. unfold mapi. apply nth_mapi_from_proj. exact Hg. Qed.
 
 (* ---- thread state setters keep t_caus ---- *)
 Lemma t_caus_set_blocked : forall t, t_caus (set_blocked t) = t_caus t.
@@ -1181,38 +1204,142 @@ Qed.
 (* ================================================================== *)
 (* 6. Channel (C09)                                                    *)
 
+(* MSendPost with the receiver gone writes the channel object twice (push, then
+   Channel::undo_send): the first write is dead.  These equations bring the
+   result back to the single-write shape the framing tactics of the later
+   files (SyncMono, NotifyFacts, ClockFacts, LeakFacts, ...) know. *)
+Lemma list_upd_upd_const : forall (A : Type) (l : list A) k (a b : A),
+  list_upd (list_upd l k (fun _ => a)) k (fun _ => b) = list_upd l k (fun _ => b).
+Proof.
+  intros A l k a b. unfold list_upd at 1. rewrite nth_error_list_upd_same.
+  unfold list_upd. destruct (nth_error l k) as [x|] eqn:Hn; cbn [option_map]; [|reflexivity].
+  clear Hn x. revert k. induction l as [|y l IH]; intros k; [reflexivity|].
+  destruct k as [|k]; cbn [list_set]; [reflexivity|]. rewrite IH. reflexivity.
+Qed.
+
+Lemma upd_object_upd_object_const : forall e i o1 o2,
+  upd_object (upd_object e i (fun _ => o1)) i (fun _ => o2) = upd_object e i (fun _ => o2).
+Proof.
+  intros e i o1 o2. unfold upd_object. cbn [e_objects ex_set_objects].
+  rewrite list_upd_upd_const. reflexivity.
+Qed.
+
+Lemma upd_object_map_others_upd_object_const : forall e i o1 o2 me p f,
+  upd_object (map_others (upd_object e i (fun _ => o1)) me p f) i (fun _ => o2) =
+  map_others (upd_object e i (fun _ => o2)) me p f.
+Proof.
+  intros e i o1 o2 me p f. unfold upd_object, map_others.
+  cbn [e_objects e_threads ex_set_objects ex_set_threads].
+  rewrite list_upd_upd_const. reflexivity.
+Qed.
+
+(* the harness flag "receiver alive" as MSendPost reads it (after the channel
+   object and the wake-ups were written) is the flag of the state before *)
+Lemma send_post_rx_frame : forall e h f me p g (c : bool),
+  get_h (if c then map_others (upd_object e h f) me p g else upd_object e h f) h = get_h e h.
+Proof. intros e h f me p g c. destruct c; reflexivity. Qed.
+
+Lemma send_post_keeps_rx : forall e me h v e',
+  exec_micro e me (MSendPost h v) = MOk e' -> ho_rx (get_h e' h) = ho_rx (get_h e h).
+Proof.
+  intros e me h v e' Hex. unfold exec_micro in Hex.
+  destruct (get_chan e h) as [s|]; [|discriminate]. cbv zeta in Hex.
+  rewrite send_post_rx_frame in Hex.
+  apply MOk_inj in Hex. subst e'.
+  assert (Hlog : forall e0 r, get_h (log_op e0 me r) h = get_h e0 h).
+  { intros e0 r. unfold log_op. destruct (get_thread e0 me); reflexivity. }
+  rewrite Hlog.
+  destruct (ho_rx (get_h e h)) eqn:Hrx.
+  - unfold get_h, upd_hobj. change (e_h (ex_set_h ?a ?l)) with l.
+    rewrite (nth_list_upd_proj _ _ ho_rx) by (intros x; reflexivity).
+    match goal with |- context [if ?c then map_others _ _ _ _ else _] => destruct c end;
+      exact Hrx.
+  - match goal with |- context [if ?c then map_others _ _ _ _ else _] => destruct c end;
+      exact Hrx.
+Qed.
+
+(* receiver alive: the message is queued *)
 Lemma send_post_publishes : forall e me h v s e',
-  get_chan e h = Some s -> exec_micro e me (MSendPost h v) = MOk e' ->
+  get_chan e h = Some s -> ho_rx (get_h e h) = true ->
+  exec_micro e me (MSendPost h v) = MOk e' ->
   exists s', get_chan e' h = Some s' /\
              ch_cnt s' = S (ch_cnt s) /\
              ch_recv_sync s' = ch_recv_sync s ++ [ch_sender_sync s'] /\
              vle (caus_of e me) (ch_sender_sync s') /\
              vle (ch_sender_sync s) (ch_sender_sync s').
 Proof.
-  intros e me h v s e' Hget Hex.
+  intros e me h v s e' Hget Hrx Hex.
   pose proof (get_chan_nth e h s Hget) as Hnth.
   unfold exec_micro in Hex. rewrite Hget in Hex. cbv zeta in Hex.
+  rewrite send_post_rx_frame in Hex. rewrite Hrx in Hex. cbv iota in Hex.
   apply MOk_inj in Hex. subst e'.
   eexists. split.
   - rewrite (get_chan_objects_eq _ _ h (e_objects_log_op _ _ _)).
-    match goal with |- get_chan (if ?c then _ else _) _ = _ => destruct c end;
-      [rewrite (get_chan_objects_eq _ _ h (e_objects_upd_hobj _ _ _))|];
-      (match goal with |- context [if ?c then map_others _ _ _ _ else _] => destruct c end;
-       [rewrite (get_chan_objects_eq _ _ h (e_objects_map_others _ _ _ _))|];
-       eapply get_chan_upd_const; exact Hnth).
-  - simpl. split; [reflexivity | split; [reflexivity |
+    rewrite (get_chan_objects_eq _ _ h (e_objects_upd_hobj _ _ _)).
+    match goal with |- context [if ?c then map_others _ _ _ _ else _] => destruct c end;
+      [rewrite (get_chan_objects_eq _ _ h (e_objects_map_others _ _ _ _))|];
+      eapply get_chan_upd_const; exact Hnth.
+  - cbn [ch_cnt ch_recv_sync ch_sender_sync]. split; [reflexivity | split; [reflexivity |
              split; [apply sync_store_rel; reflexivity | apply sync_store_keeps]]].
+Qed.
+
+(* receiver gone: the message comes back to the sender; the count and the queued
+   per-message views are left alone, only the sender-side view advances *)
+Lemma send_post_disconnected : forall e me h v s e',
+  get_chan e h = Some s -> ho_rx (get_h e h) = false ->
+  exec_micro e me (MSendPost h v) = MOk e' ->
+  exists s', get_chan e' h = Some s' /\
+             ch_cnt s' = ch_cnt s /\
+             ch_recv_sync s' = ch_recv_sync s /\
+             vle (ch_sender_sync s) (ch_sender_sync s').
+Proof.
+  intros e me h v s e' Hget Hrx Hex.
+  pose proof (get_chan_nth e h s Hget) as Hnth.
+  unfold exec_micro in Hex. rewrite Hget in Hex. cbv zeta in Hex.
+  rewrite send_post_rx_frame in Hex. rewrite Hrx in Hex. cbv iota in Hex.
+  apply MOk_inj in Hex. subst e'.
+  eexists. split.
+  - rewrite (get_chan_objects_eq _ _ h (e_objects_log_op _ _ _)).
+    eapply get_chan_upd_const.
+    match goal with |- context [if ?c then map_others _ _ _ _ else _] => destruct c end;
+      [rewrite e_objects_map_others|];
+      rewrite e_objects_upd_object; rewrite nth_error_list_upd_same; rewrite Hnth; reflexivity.
+  - cbn [ch_cnt ch_recv_sync ch_sender_sync].
+    split; [reflexivity | split; [reflexivity | apply sync_store_keeps]].
+Qed.
+
+(* a disconnected send still publishes the sender's clock in the sender-side view *)
+Lemma send_post_disconnected_sender_sync : forall e me h v s e' s',
+  get_chan e h = Some s -> ho_rx (get_h e h) = false ->
+  exec_micro e me (MSendPost h v) = MOk e' -> get_chan e' h = Some s' ->
+  vle (caus_of e me) (ch_sender_sync s').
+Proof.
+  intros e me h v s e' s' Hget Hrx Hex Hget'.
+  pose proof (get_chan_nth e h s Hget) as Hnth.
+  unfold exec_micro in Hex. rewrite Hget in Hex. cbv zeta in Hex.
+  rewrite send_post_rx_frame in Hex. rewrite Hrx in Hex. cbv iota in Hex.
+  apply MOk_inj in Hex. subst e'.
+  rewrite (get_chan_objects_eq _ _ h (e_objects_log_op _ _ _)) in Hget'.
+  assert (Hn : forall (c : bool) f p g,
+             nth_error (e_objects (if c then map_others (upd_object e h f) me p g
+                                   else upd_object e h f)) h = Some (f (OChannel s))).
+  { intros c f p g. destruct c; [rewrite e_objects_map_others|];
+      rewrite e_objects_upd_object; rewrite nth_error_list_upd_same; rewrite Hnth; reflexivity. }
+  rewrite (get_chan_upd_const _ _ _ _ (Hn _ _ _ _)) in Hget'.
+  inversion Hget' as [Hs']. cbn [ch_sender_sync].
+  apply sync_store_rel. reflexivity.
 Qed.
 
 (* the view pushed for the new message dominates the sender's clock *)
 Corollary send_post_last_view : forall e me h v s e' s',
-  get_chan e h = Some s -> exec_micro e me (MSendPost h v) = MOk e' ->
+  get_chan e h = Some s -> ho_rx (get_h e h) = true ->
+  exec_micro e me (MSendPost h v) = MOk e' ->
   get_chan e' h = Some s' ->
   exists sy, ch_recv_sync s' = ch_recv_sync s ++ [sy] /\
              vle (caus_of e me) sy /\ vle (ch_sender_sync s) sy.
 Proof.
-  intros e me h v s e' s' Hget Hex Hget'.
-  destruct (send_post_publishes e me h v s e' Hget Hex) as [s'' [Hg [_ [Hrs [Hc Hs]]]]].
+  intros e me h v s e' s' Hget Hrx Hex Hget'.
+  destruct (send_post_publishes e me h v s e' Hget Hrx Hex) as [s'' [Hg [_ [Hrs [Hc Hs]]]]].
   rewrite Hget' in Hg. inversion Hg as [Heq]. subst s''. clear Hg.
   exists (ch_sender_sync s'). split; [exact Hrs | split; [exact Hc | exact Hs]].
 Qed.
@@ -1225,7 +1352,7 @@ Proof.
   apply MOk_inj in Hex. subst e'.
   rewrite caus_of_log_op.
   match goal with |- caus_of (if ?c then _ else _) _ = _ => destruct c end;
-    [rewrite caus_of_upd_hobj|];
+    [rewrite caus_of_upd_hobj|rewrite caus_of_upd_object];
     (match goal with |- context [if ?c then map_others _ _ _ _ else _] => destruct c end;
      [rewrite caus_of_map_others_keep by (intros t; reflexivity)|];
      apply caus_of_upd_object).
@@ -1805,21 +1932,31 @@ Lemma get_store_stores_eq : forall s1 s2 j,
 Proof. intros s1 s2 j Heq. unfold get_store. rewrite Heq. reflexivity. Qed.
 
 (* ---- apply_load_coherence changes st_mo only ---- *)
+(* both the update of the loaded store and the propagation to the stores ordered after
+   it go through [st_set_mo]: any projection that [st_set_mo] preserves is kept *)
+Lemma alc_keeps_proj : forall (B : Type) (g : astore -> B),
+  (forall x m, g (st_set_mo x m) = g x) ->
+  forall s caus idx j,
+  g (get_store (apply_load_coherence s caus idx) j) = g (get_store s j).
+Proof.
+  intros B g Hg s caus idx j. unfold apply_load_coherence, get_store. cbv zeta.
+  rewrite at_stores_set_stores.
+  match goal with |- context [if ?c then _ else _] => destruct c end.
+  - apply (nth_list_upd_proj _ _ g). intros x. apply Hg.
+  - rewrite (nth_mapi_proj _ _ g).
+    + apply (nth_list_upd_proj _ _ g). intros x. apply Hg.
+    + intros i x.
+      match goal with |- context [if ?c then _ else _] => destruct c end;
+        [apply Hg | reflexivity].
+Qed.
+
 Lemma alc_keeps_sync : forall s caus idx j,
   st_sync (get_store (apply_load_coherence s caus idx) j) = st_sync (get_store s j).
-Proof.
-  intros s caus idx j. unfold apply_load_coherence, get_store. cbv zeta.
-  rewrite at_stores_set_stores.
-  apply (nth_list_upd_proj _ _ st_sync). intros x. reflexivity.
-Qed.
+Proof. apply (alc_keeps_proj _ st_sync). intros x m. reflexivity. Qed.
 
 Lemma alc_keeps_value : forall s caus idx j,
   st_value (get_store (apply_load_coherence s caus idx) j) = st_value (get_store s j).
-Proof.
-  intros s caus idx j. unfold apply_load_coherence, get_store. cbv zeta.
-  rewrite at_stores_set_stores.
-  apply (nth_list_upd_proj _ _ st_value). intros x. reflexivity.
-Qed.
+Proof. apply (alc_keeps_proj _ st_value). intros x m. reflexivity. Qed.
 
 Lemma alc_keeps_cnt : forall s caus idx, at_cnt (apply_load_coherence s caus idx) = at_cnt s.
 Proof. reflexivity. Qed.
@@ -1828,7 +1965,10 @@ Lemma alc_keeps_length : forall s caus idx,
   length (at_stores (apply_load_coherence s caus idx)) = length (at_stores s).
 Proof.
   intros s caus idx. unfold apply_load_coherence. cbv zeta.
-  rewrite at_stores_set_stores. apply list_upd_length.
+  rewrite at_stores_set_stores.
+  match goal with |- context [if ?c then _ else _] => destruct c end.
+  - apply list_upd_length.
+  - rewrite mapi_length. apply list_upd_length.
 Qed.
 
 (* ---- the state after the load part of load / rmw ---- *)
